@@ -647,6 +647,10 @@ def int_shards(quick):
     sh += [("sqrt-curve", i, 0, 1) for i in range(len(CURVE_PRIMES)) if CURVE_PRIMES[i][1] % 8 != 1]
     top = 2 ** 13 if quick else 2 ** 16
     sh += [("isqrt-range", a, a + 1024) for a in range(0, top, 1024)]
+    # neighbours of perfect squares of EVERY size (k = 2^m + j and k = floor(sqrt(2) 2^m) + j): integer square roots
+    # computed through floating point go wrong first around 2^52..2^53, between the sizes of the operand alphabet
+    mtop = 140 if quick else 1100
+    sh += [("sqrt-neighbours", a, min(a + 20, mtop)) for a in range(1, mtop, 20)]
     return [("int",) + s + (quick,) for s in sh]
 
 
@@ -681,6 +685,18 @@ def int_worker(sh, acc):
         for a in Vv + sq:
             for name in UN_OPS:
                 int_case(name, (a,), "I", acc)
+    elif kind == "sqrt-neighbours":
+        for m in range(sh[1], sh[2]):
+            for base in (1 << m, math.isqrt(1 << (2 * m + 1))):
+                for j in (-2, -1, 0, 1, 2):
+                    k = base + j
+                    if k < 0:
+                        continue
+                    for d in (-2, -1, 0, 1, 2):
+                        a = k * k + d
+                        if a >= 0:
+                            int_case("sqrt", (a,), "I", acc)
+                            int_case("is_perfect_square", (a,), "I", acc)
     elif kind == "isqrt-range":
         for a in range(sh[1], sh[2]):
             for name in ("sqrt", "is_perfect_square", "size_in_bits", "size_in_bytes", "to_bytes0", "int", "is_odd"):
